@@ -42,7 +42,9 @@ SCENARIOS = {
                    _man('proid.db', 1, 1, 1, traits=['t1'], data_retention_timeout='5s'),
                    _man('other.app', 1, 1, 1, lease='5d', data_retention_timeout='30d'),
                    dict(name='proid.web', demand=[512, 0, 512], affinity='web',
-                        identity_group='proid.g1', data_retention_timeout='1s')],
+                        identity_group='proid.g1', data_retention_timeout='1s'),
+                   dict(name='proid.lim', demand=[512, 0, 512], affinity='lim',
+                        affinity_limits={'rack': 1, 'server': 1}, data_retention_timeout='2s')],
         groups={'proid.g1': 3},
         apps=['a1', 'a2', 'a3', 'a4']),
 }
